@@ -532,6 +532,15 @@ func init() {
 			}
 			return appendWorker(sp, func(r appRec) { c.Emit(r) })
 		}
+		if len(c.Args) > 0 && c.Args[0] == "hist-worker" {
+			// one history inside this process: stdin = histSpec
+			var sp histSpec
+			if err := json.NewDecoder(os.Stdin).Decode(&sp); err != nil {
+				return err
+			}
+			c.Emit(histWorker(sp, c.Scratch))
+			return nil
+		}
 		self, _ := os.Executable()
 		if len(c.Args) > 0 && c.Args[0] == "replay" {
 			// stdin: {"kind","sinks","file_fault","broker","reqs":[reqSpec...]} ; args[1] = relic binary (standalone)
@@ -546,12 +555,18 @@ func init() {
 				FileFault string    `json:"file_fault"`
 				Broker    string    `json:"broker"`
 				Reqs      []reqSpec `json:"reqs"`
+				Hist      *histSpec `json:"hist"`
 			}
 			if err := json.NewDecoder(os.Stdin).Decode(&in); err != nil {
 				return err
 			}
 			dir := filepath.Join(c.Scratch, "replay")
 			switch in.Kind {
+			case "history":
+				if in.Hist == nil {
+					return fmt.Errorf("replay of a history needs its steps")
+				}
+				c.Emit(runHistory(self, dir, *in.Hist))
 			case "appenders":
 				c.Emit(runAppenders(self, dir, 0, in.Mode, in.Procs, in.Sizes, in.FailK, in.DelayUs))
 			case "standalone":
@@ -587,6 +602,31 @@ func init() {
 			c.Emit(runSequential(filepath.Join(c.Scratch, fmt.Sprintf("s%d", id)), id, sinks, fault, bh, seqReqs))
 			id++
 		})
+		// the content of the record: histories inside one server process (hist.go), each in a process of its own, eight at a time
+		hists := fixedHistories()
+		nrand := 6
+		if c.Tier == "thorough" {
+			nrand = 40
+		}
+		rng := &core.Rng{S: c.Seed*7919 + 17}
+		for k := 0; k < nrand; k++ {
+			hists = append(hists, randomHistory(rng, k))
+		}
+		hres := make([]*histObs, len(hists))
+		var hwg sync.WaitGroup
+		hsem := make(chan struct{}, 8)
+		for i := range hists {
+			hists[i].ID = id
+			id++
+			i := i
+			hwg.Add(1)
+			go func() {
+				defer hwg.Done()
+				hsem <- struct{}{}
+				defer func() { <-hsem }()
+				hres[i] = runHistory(self, filepath.Join(c.Scratch, fmt.Sprintf("h%d", hists[i].ID)), hists[i])
+			}()
+		}
 		// concurrency: many writers, long records, one audit file; once with the file alone, once with a healthy broker too
 		workers, per := 32, 12
 		if c.Tier == "thorough" {
@@ -595,6 +635,10 @@ func init() {
 		for _, sinks := range []string{"file", "both"} {
 			c.Emit(runConcurrent(filepath.Join(c.Scratch, "conc-"+sinks), id, sinks, workers, per))
 			id++
+		}
+		hwg.Wait()
+		for _, h := range hres {
+			c.Emit(h)
 		}
 		// the audit file at the level of system calls: AppendTo itself, record lengths around every buffer boundary
 		thorough := c.Tier == "thorough"
